@@ -9,15 +9,20 @@ worker of `Run` to its blocking points; the table of blocking points is regenera
 (`Gen.C13`, go/parser over block/*.go and node/full.go) on every run.
 
 * `termination` — for EVERY table that is `allGuarded` (every blocking point inside a select with a ctx case / a
-  default, or a bounded sleep; not more plain `errCh <-` senders than `errCh` has room for): from every reachable
+  default, or a bounded sleep; not more plain `errCh <-` senders than `errCh` has room for) and `errDisciplined`
+  (error reports are either all non-blocking select-sends or all plain terminal sends): from every reachable
   state in which the node context is cancelled, every schedule is finite (`≤ μ` steps, the environment's included), a
   state in which the node itself can do nothing more is the finished one (all workers returned, `Run` returned), and
   the node can always get there by its own actions.
-* `C13_all_guarded` (the full statement about the current tree) is **false**: `C13_all_guarded_fails`;
-  `C13_unguarded_exact` lists the unguarded points of the current tree exactly.
-* `C13_termination_partial` — `termination` for the generated tables minus exactly those points.
-* witnesses: a worker parked at each kind of unguarded point never returns
-  (`C13_future_genesis_never_returns` on the GENERATED aggregator table; `errSend_witness`, `fullChannel_witness`).
+* `C13_all_guarded`, `C13_no_unguarded`, `C13_static_facts` — the current tree's tables satisfy the hypotheses
+  (`decide` on the regenerated tables: an unguarded blocking point, a plain `errCh <-` next to the non-blocking ones,
+  a loop without a ctx case, a changed worker set or `Run` protocol breaks the build of this file).
+* `C13_termination` — `termination` at full strength for BOTH worker sets of the current tree (aggregator and full
+  node), any budget.
+* witnesses on small hand-written tables, one per kind of unguarded point, showing what each would cause:
+  `sleep_witness` (start-up `time.Sleep(delay)`: returns only when the environment lets the delay elapse),
+  `errSend_witness` (two plain senders on the capacity-1 `errCh`: dead), `mixedErr_witness` (one plain sender next to a
+  non-blocking one: dead), `fullChannel_witness` (plain send on a full event channel whose consumer returned: dead).
 -/
 namespace Spec.C13
 open Shutdown
@@ -32,12 +37,12 @@ def fullProgs : List (List BP) := progsOf Gen.C13.points Gen.C13.fullWorkers
 
 /-- **Shutdown protocol (general).** -/
 theorem termination (c : Cfg) (progs : List (List BP))
-    (hg : allGuarded c progs = true) (hsel : noSelErr progs = true)
+    (hg : allGuarded c progs = true) (hd : errDisciplined progs = true)
     (s : St) (hr : Reach c progs s) (hc : s.cancelled = true) :
     (∀ as s', exec c s as = some s' → as.length ≤ μ c s) ∧
     (∀ as s', exec c s as = some s' → Stuck c s' → finished s' = true) ∧
     (∃ as s', (∀ a ∈ as, a.isEnv = false) ∧ exec c s as = some s' ∧ finished s' = true) := by
-  have hs := safe_of_allGuarded c progs hsel hg
+  have hs := safe_of_allGuarded c progs hd hg
   refine ⟨?_, ?_, ?_⟩
   · intro as s' h
     have := exec_bounded c as s s' hc h
@@ -53,100 +58,97 @@ theorem termination (c : Cfg) (progs : List (List BP))
       simp at hstep
   · exact can_finish c progs hs (μ c s) s hr hc (Nat.le_refl _)
 
-/-- non-vacuity: a guarded two-worker table with one plain error sender on a capacity-1 `errCh`; a cancelled state is
-reachable -/
+/-- non-vacuity (plain discipline): a guarded two-worker table with one plain error sender on a capacity-1 `errCh`; a
+cancelled state is reachable -/
 example : allGuarded { cap := fun _ => 1, budget := 2 } [[.ctxSelect, .errSend], [.ctxSelect, .recv .timer true]] = true ∧
+    errDisciplined [[.ctxSelect, .errSend], [.ctxSelect, .recv .timer true]] = true ∧
     (exec { cap := fun _ => 1, budget := 2 } (initSt [[.ctxSelect, .errSend], [.ctxSelect, .recv .timer true]])
       [.work 0 (.next .errSend), .work 0 .ret, .runErr]).map (·.cancelled) = some true := by decide
 
+/-- non-vacuity (non-blocking discipline, the one of the current tree): two workers that report errors with
+`select { case errCh <- err: default: }`; both report, `Run` reads the first and cancels -/
+example : allGuarded { cap := fun _ => 1, budget := 2 } [[.ctxSelect, .send .errCh true], [.ctxSelect, .send .errCh true]] = true ∧
+    errDisciplined [[.ctxSelect, .send .errCh true], [.ctxSelect, .send .errCh true]] = true ∧
+    (exec { cap := fun _ => 1, budget := 2 } (initSt [[.ctxSelect, .send .errCh true], [.ctxSelect, .send .errCh true]])
+      [.work 0 (.next (.send .errCh true)), .work 1 (.next (.send .errCh true)), .work 0 .ret, .work 1 .ret,
+       .runErr]).map (·.cancelled) = some true := by decide
+
 /-! ## the current tree -/
 
-/-- structural facts of the current source the abstraction relies on -/
+/-- structural facts of the current source the abstraction relies on: `Run`'s protocol, terminal plain error sends,
+every unbounded loop with a blocking operation has a ctx case, the discipline on `errCh`, the worker sets, every
+worker has a ctx select -/
 theorem C13_static_facts :
     Gen.C13.runProtocol = true ∧ Gen.C13.errSendsTerminal = true ∧ Gen.C13.loopsHeaded = true ∧
-    noSelErr aggProgs = true ∧ noSelErr fullProgs = true ∧
+    errDisciplined aggProgs = true ∧ errDisciplined fullProgs = true ∧
     Gen.C13.aggregatorWorkers = [0, 1, 2, 3, 4] ∧ Gen.C13.fullWorkers = [5, 6, 7, 8, 4] ∧
     aggProgs.all (fun p => p.contains .ctxSelect) = true ∧ fullProgs.all (fun p => p.contains .ctxSelect) = true := by
   decide
 
-/-- FULL statement for the current tree: every blocking point of every worker of both modes is guarded and `errCh`
+/-- **FULL statement for the current tree:** every blocking point of every worker of both modes is guarded and `errCh`
 has room for all its plain senders -/
-def C13_all_guarded : Prop :=
-  allGuarded (cfg 0) aggProgs = true ∧ allGuarded (cfg 0) fullProgs = true
+theorem C13_all_guarded :
+    allGuarded (cfg 0) aggProgs = true ∧ allGuarded (cfg 0) fullProgs = true := by decide
 
-theorem C13_all_guarded_fails : ¬ C13_all_guarded := by unfold C13_all_guarded; decide
+/-- no point of the regenerated table is unguarded, and nobody does a plain `errCh <-` any more -/
+theorem C13_no_unguarded :
+    unguardedRaw Gen.C13.points = [] ∧ errSenders aggProgs = 0 ∧ errSenders fullProgs = 0 := by decide
 
-/-- exactly these points of the current tree are unguarded (loop, kind, channel, flag — codes in `Gen/C13.lean`):
-`time.Sleep(delay)` of AggregationLoop; plain `errCh <-` in AggregationLoop (2), DAIncluderLoop (2), SyncLoop (2);
-plain `headerInCh <-` / `dataInCh <-` in RetrieveLoop (handlePotentialHeader/Data) and in the two store loops -/
-theorem C13_unguarded_exact :
-    unguardedRaw Gen.C13.points =
-      [(0, 1, 0, false), (0, 4, 0, false), (0, 4, 0, false),
-       (4, 4, 0, false), (4, 4, 0, false),
-       (5, 2, 1, false), (5, 2, 2, false),
-       (6, 2, 1, false), (7, 2, 2, false),
-       (8, 4, 0, false), (8, 4, 0, false)] := by decide
-
-/-- two workers of each mode can send on `errCh`, which has room for `capErrCh` -/
-theorem C13_err_senders :
-    errSenders aggProgs = 2 ∧ errSenders fullProgs = 2 ∧ Gen.C13.capErrCh = 1 := by decide
-
-/-- **PARTIAL.** The shutdown theorem for the generated tables minus exactly the points of `C13_unguarded_exact`. -/
-theorem C13_termination_partial (budget : Nat) (progs : List (List BP))
-    (hp : progs = strip aggProgs ∨ progs = strip fullProgs)
+/-- **Shutdown of the current tree (full strength, both worker sets, any budget):** from every reachable state of
+`FullNode.Run` with its aggregator workers (AggregationLoop, Reaper, the two submission loops, DAIncluderLoop) or its
+full-node workers (RetrieveLoop, the two store loops, SyncLoop, DAIncluderLoop) in which the node context is
+cancelled — whenever and however the stop was requested — every schedule is finite, nothing can get stuck short of
+"all loops returned and `Run` returned", and the node gets there by its own actions alone. -/
+theorem C13_termination (budget : Nat) (progs : List (List BP))
+    (hp : progs = aggProgs ∨ progs = fullProgs)
     (s : St) (hr : Reach (cfg budget) progs s) (hc : s.cancelled = true) :
     (∀ as s', exec (cfg budget) s as = some s' → as.length ≤ μ (cfg budget) s) ∧
     (∀ as s', exec (cfg budget) s as = some s' → Stuck (cfg budget) s' → finished s' = true) ∧
     (∃ as s', (∀ a ∈ as, a.isEnv = false) ∧ exec (cfg budget) s as = some s' ∧ finished s' = true) := by
-  have hs : safeTable (cfg budget) progs = true := by
-    rcases hp with h | h <;> subst h <;> exact strip_safe _ _
-  refine ⟨?_, ?_, ?_⟩
-  · intro as s' h
-    have := exec_bounded (cfg budget) as s s' hc h
-    omega
-  · intro as s' h hstuck
-    cases hf : finished s' with
-    | true => rfl
-    | false =>
-      have hr' := reach_exec (cfg budget) progs as s s' hr h
-      obtain ⟨a, s2, ha, hstep⟩ :=
-        progress (cfg budget) progs hs s' (inv_reach (cfg budget) progs hs s' hr')
-          (exec_cancelled (cfg budget) as s s' hc h) hf
-      rw [hstuck a ha] at hstep
-      simp at hstep
-  · exact can_finish (cfg budget) progs hs (μ (cfg budget) s) s hr hc (Nat.le_refl _)
+  rcases hp with rfl | rfl
+  · exact termination (cfg budget) aggProgs C13_all_guarded.1 C13_static_facts.2.2.2.1 s hr hc
+  · exact termination (cfg budget) fullProgs C13_all_guarded.2 C13_static_facts.2.2.2.2.1 s hr hc
 
-/-- what `strip` removes from the generated tables is the listed points and nothing else: the stripped tables have as
-many points as the originals minus the 11 listed ones (5 in aggregator mode, 8 in full-node mode, the two of
-DAIncluderLoop being shared) -/
-theorem C13_strip_counts :
-    (aggProgs.map List.length).sum = ((strip aggProgs).map List.length).sum + 5 ∧
-    (fullProgs.map List.length).sum = ((strip fullProgs).map List.length).sum + 8 := by decide
+/-- non-vacuity on the generated tables: cancelled states are reachable in both modes — a stop request while
+AggregationLoop waits out its start-up delay (`select { ctx.Done / time.After(delay) }`), and a full node whose
+SyncLoop and DAIncluderLoop are both at their (non-blocking) error report when the stop request wins `Run`'s select -/
+example :
+    (exec (cfg 4) (initSt aggProgs)
+      [.work 0 (.next .ctxSelect), .parentCancel, .runParent]).map (·.cancelled) = some true ∧
+    (exec (cfg 4) (initSt fullProgs)
+      [.work 3 (.next (.send .errCh true)), .work 4 (.next (.send .errCh true)), .parentCancel, .runParent,
+       .work 3 .ret]).map (fun s => (s.cancelled, s.lvl .errCh)) = some (true, 1) := by decide
 
-/-! ## witnesses: one per kind of unguarded point -/
+/-! ## witnesses on hand-written tables: what each kind of unguarded point would cause -/
 
-/-- the schedule "AggregationLoop is in its start-up sleep (genesis in the future), the node is asked to stop" on the
-GENERATED aggregator table -/
-def futureGenesisState : Option St :=
-  exec (cfg 4) (initSt aggProgs) [.work 0 (.next (.sleep false)), .parentCancel, .runParent]
+def sleepTable : List (List BP) := [[.ctxSelect, .sleep false, .recv .timer true]]
+def sleepCfg : Cfg := { cap := fun _ => 1, budget := 4 }
 
-/-- **unbounded sleep (on the generated table).** The state is reachable, the context is cancelled, and no schedule of
-the node's own actions ever reaches the finished state: `Run` returns only when the environment lets the start-up
-delay elapse. -/
-theorem C13_future_genesis_never_returns :
-    ∃ s, futureGenesisState = some s ∧ Reach (cfg 4) aggProgs s ∧ s.cancelled = true ∧
-      ∀ as s', (∀ a ∈ as, a.isEnv = false) → exec (cfg 4) s as = some s' → finished s' = false := by
-  have hsome : futureGenesisState.isSome = true := by decide
+/-- the schedule "the production loop is in a start-up `time.Sleep(delay)` (genesis in the future), the node is asked
+to stop" -/
+def sleepWitness : Option St :=
+  exec sleepCfg (initSt sleepTable) [.work 0 (.next (.sleep false)), .parentCancel, .runParent]
+
+/-- **unbounded `time.Sleep`:** the state is reachable, the context is cancelled, the static judgement rejects the
+table, and no schedule of the node's own actions ever reaches the finished state: `Run` returns only when the
+environment lets the delay elapse (which it then does: a LATE stop, not a hang). -/
+theorem sleep_witness :
+    allGuarded sleepCfg sleepTable = false ∧
+    (∃ s, sleepWitness = some s ∧ Reach sleepCfg sleepTable s ∧ s.cancelled = true ∧
+      ∀ as s', (∀ a ∈ as, a.isEnv = false) → exec sleepCfg s as = some s' → finished s' = false) ∧
+    (sleepWitness.bind fun s => (exec sleepCfg s [.elapse 0 .ret, .join]).map finished) = some true := by
+  refine ⟨by decide, ?_, by decide⟩
+  have hsome : sleepWitness.isSome = true := by decide
   obtain ⟨s, hs⟩ := Option.isSome_iff_exists.mp hsome
-  refine ⟨s, hs, reach_exec (cfg 4) aggProgs _ _ s Reach.init hs, ?_, ?_⟩
-  · have : (futureGenesisState.map (·.cancelled)) = some true := by decide
+  refine ⟨s, hs, reach_exec sleepCfg sleepTable _ _ s Reach.init hs, ?_, ?_⟩
+  · have : (sleepWitness.map (·.cancelled)) = some true := by decide
     rw [hs] at this; simpa using this
-  · have hw : (futureGenesisState.bind fun s => s.ws[0]?.map (·.st)) = some (.at (.sleep false) 3) := by decide
+  · have hw : (sleepWitness.bind fun s => s.ws[0]?.map (·.st)) = some (.at (.sleep false) 3) := by decide
     rw [hs] at hw
     simp only [Option.bind_some, Option.map_eq_some_iff] at hw
     obtain ⟨w, hw0, hwst⟩ := hw
     intro as s' has hex
-    exact sleep_never_returns (cfg 4) as s s' 0 w 3 hw0 hwst has hex
+    exact sleep_never_returns sleepCfg as s s' 0 w 3 hw0 hwst has hex
 
 def errTable : List (List BP) := [[.ctxSelect, .errSend], [.ctxSelect, .errSend]]
 def errCfg : Cfg := { cap := fun _ => 1, budget := 2 }
@@ -256,17 +258,78 @@ theorem fullChannel_witness :
     · simp [step, allDone, h0, h1]
     · simp [step]
 
+def mixTable : List (List BP) := [[.ctxSelect, .send .errCh true], [.ctxSelect, .errSend]]
+
+/-- the schedule: both workers hit an error, the stop request wins `Run`'s select, the NON-blocking report of worker 0
+takes the one slot of `errCh` -/
+def mixWitness : Option St :=
+  exec errCfg (initSt mixTable)
+    [.work 0 (.next (.send .errCh true)), .work 1 (.next .errSend), .parentCancel, .runParent, .work 0 .ret]
+
+/-- **one plain `errCh <-` left next to non-blocking reports:** the table passes the capacity count (one plain sender,
+capacity 1) but not the discipline; reachable, cancelled, not finished, no action enabled ever again -/
+theorem mixedErr_witness :
+    allGuarded errCfg mixTable = true ∧ errDisciplined mixTable = false ∧
+    ∃ s, mixWitness = some s ∧ Reach errCfg mixTable s ∧ s.cancelled = true ∧ finished s = false ∧ Dead errCfg s := by
+  refine ⟨by decide, by decide, ?_⟩
+  have hsome : mixWitness.isSome = true := by decide
+  obtain ⟨s, hs⟩ := Option.isSome_iff_exists.mp hsome
+  have hc : (mixWitness.map (·.cancelled)) = some true := by decide
+  have hf : (mixWitness.map finished) = some false := by decide
+  have hws : (mixWitness.map fun s => s.ws.map (·.st)) = some [.done, .at .errSend 1] := by decide
+  have hl : (mixWitness.map fun s => s.lvl .errCh) = some 1 := by decide
+  have hp : (mixWitness.map (·.phase)) = some .joining := by decide
+  have hpc : (mixWitness.map (·.parentCancelled)) = some true := by decide
+  rw [hs] at hc hf hws hl hp hpc
+  simp only [Option.map_some, Option.some.injEq] at hc hf hws hl hp hpc
+  refine ⟨s, hs, reach_exec errCfg mixTable _ _ s Reach.init hs, hc, hf, ?_⟩
+  obtain ⟨ws, lvl, c, pc, ph⟩ := s
+  simp only at hc hws hl hp hpc
+  subst hc hp hpc
+  match ws, hws with
+  | [w0, w1], hws =>
+    simp only [List.map_cons, List.map_nil, List.cons.injEq, and_true] at hws
+    obtain ⟨h0, h1⟩ := hws
+    apply dead_of
+    · intro i mv
+      match i with
+      | 0 => simp [step, h0, stEnabled, after]
+      | 1 => simp [step, h1, stEnabled, opEnabled, hl, errCfg]
+      | n + 2 => simp [step]
+    · intro i mv
+      match i with
+      | 0 => simp [step, h0]
+      | 1 => simp [step, h1]
+      | n + 2 => simp [step]
+    · simp [step]
+    · simp [step]
+    · simp [step, allDone, h0, h1]
+    · simp [step]
+
+/-- the static judgement rejects the two tables above (two plain senders for one slot; an unguarded send) -/
+theorem witnesses_rejected :
+    allGuarded errCfg errTable = false ∧ allGuarded chanCfg chanTable = false := by decide
+
 /-! ## the verdict function the driver prints, evaluated on the generated tables -/
 
-/-- stop request with every worker at a ctx select: prompt; AggregationLoop in its start-up sleep: late; both error
-senders of a mode at their plain `errCh <-`: hang; RetrieveLoop at its plain send with `headerInCh` full: hang -/
+/-- On the GENERATED tables every configuration the stream produces stops promptly: stop request with every worker at
+a ctx select; AggregationLoop waiting out its start-up delay (now a select on ctx.Done / time.After; the former
+`time.Sleep` point is no longer in the table, which is how the driver's future-genesis scenario gets "stopped=1");
+both error reporters of a mode at their report with `errCh` already full; the event producers of the full node at
+their send with `headerInCh` full.  On the hand-written tables with the unguarded forms the same configurations give
+late / hang. -/
 theorem C13_verdicts :
     stopsPromptly (cfg 4) aggProgs [] [] = true ∧ stopsPromptly (cfg 4) fullProgs [] [] = true ∧
-    stopsPromptly (cfg 4) aggProgs [(0, .sleep false)] [] = false ∧
-    stopsPromptly (cfg 4) aggProgs [(0, .errSend), (4, .errSend)] [] = false ∧
-    stopsPromptly (cfg 4) fullProgs [(3, .errSend), (4, .errSend)] [] = false ∧
-    stopsPromptly (cfg 4) fullProgs [(3, .errSend)] [] = true ∧
-    stopsPromptly (cfg 4) fullProgs [(0, .send .headerInCh false)] [.headerInCh] = false ∧
-    stopsPromptly (cfg 4) fullProgs [(0, .send .headerInCh false)] [] = true := by decide
+    stopsPromptly (cfg 4) aggProgs [(0, .recv .timer true)] [] = true ∧
+    stopsPromptly (cfg 4) aggProgs [(0, .sleep false)] [] = true ∧
+    stopsPromptly (cfg 4) aggProgs [(0, .send .errCh true), (4, .send .errCh true)] [.errCh] = true ∧
+    stopsPromptly (cfg 4) fullProgs [(3, .send .errCh true), (4, .send .errCh true)] [.errCh] = true ∧
+    stopsPromptly (cfg 4) fullProgs [(3, .errSend), (4, .errSend)] [] = true ∧
+    stopsPromptly (cfg 4) fullProgs [(0, .send .headerInCh true), (1, .send .headerInCh true)] [.headerInCh] = true ∧
+    stopsPromptly (cfg 4) fullProgs [(0, .send .dataInCh true), (2, .send .dataInCh true)] [.dataInCh] = true ∧
+    stopsPromptly sleepCfg sleepTable [(0, .sleep false)] [] = false ∧
+    stopsPromptly errCfg errTable [(0, .errSend), (1, .errSend)] [] = false ∧
+    stopsPromptly errCfg mixTable [(0, .send .errCh true), (1, .errSend)] [] = false ∧
+    stopsPromptly chanCfg chanTable [(1, .send .headerInCh false)] [.headerInCh] = false := by decide
 
 end Spec.C13
